@@ -115,29 +115,9 @@ def hrun (e : HEnv) (t : TD α) (ops : List (HOp α)) : TD α := ops.foldl (hste
 
 /-! ### the rows-of-cells model -/
 
-/-- cell `(c,r)` of a grid -/
-def gcell (g : List (List α)) (c r : Nat) : Option α := (g[r]?).bind (·[c]?)
-
-/-- number of columns of a grid -/
-def gcols (g : List (List α)) : Nat := (g.head?.map List.length).getD 0
-
-/-- the grid of the same shape whose cell `(c,r)` is `f c r` -/
-def gridOf (C R : Nat) (f : Nat → Nat → Option α) : List (List α) :=
-  (List.range R).map fun r => (List.range C).filterMap fun c => f c r
-
 /-- the grid whose cell `(c,r)` is the old cell `f (c,r)` -/
 def gridPerm (g : List (List α)) (f : Nat × Nat → Nat × Nat) : List (List α) :=
   (List.range g.length).map fun r => (List.range ((g.head?.map List.length).getD 0)).filterMap fun c => gcell g (f (c, r)).1 (f (c, r)).2
-
-/-- the cells the source of `copy_from_toodee` shows, as rows; `none` = constructing the source view panics -/
-def CopySrc.grid? (s : CopySrc α) : Option (List (List α)) :=
-  match s.window with
-  | none => some s.arr.grid
-  | some (tl, br) =>
-    if tl.1 ≤ br.1 ∧ tl.2 ≤ br.2 ∧ br.1 ≤ s.arr.numCols ∧ br.2 ≤ s.arr.numRows then
-      let sz := viewSize tl br
-      some (gridOf sz.1 sz.2 fun c r => gcell s.arr.grid (tl.1 + c) (tl.2 + r))
-    else none
 
 /-- the plain model of an in-place operation on rows-of-cells: `some g'` = it succeeds with result `g'`; `some g` unchanged = it is
     rejected or caller code panicked before anything was written; `none` = the side sort broke its contract (not a permutation) -/
